@@ -66,6 +66,7 @@ type RunParams struct {
 	FullEvery  int    `json:"fullevery"`
 	Alt        bool   `json:"alt"`
 	Hold       bool   `json:"hold"`
+	FailOpen   bool   `json:"failopen"`
 }
 
 // RegressItem is a program plus runner settings.
